@@ -366,8 +366,18 @@ class Gen:
         f = r.choice(['take', 'drop', 'take-while', 'drop-while', 'take-until', 'drop-until', 'filter', 'count', 'find-index',
                       'map', 'reduce', 'partition', 'interleave', 'interpose', 'range', 'distinct', 'frequencies', 'merge',
                       'zipcoll', 'min', 'max', 'min-of', 'max-of', 'sum', 'product', 'reverse', 'reverse!', 'flatten',
-                      'take', 'drop', 'partition', 'range'])
+                      'take', 'drop', 'partition', 'range', 'find', 'index-of', 'reduce2', 'map3'])
         kind = r.choice(['(', '['])
+        if f == 'find':
+            return (f, [F(r.choice(['even', 'odd', 'pos', 'neg?', 'lt3', 'true', 'false'])), (kind, self.ints())])
+        if f == 'index-of':
+            xs = self.ints(r.below(8), -3, 3)
+            return (f, [I(r.range(-3, 3)), (kind, xs)])
+        if f == 'reduce2':
+            return (f, [F(r.choice(['add', 'mul', 'sub', 'max2', 'min2', 'snd'])), (kind, self.ints(r.below(8), -3, 3))])
+        if f == 'map3':
+            return ('map', [F(r.choice(['add3', 'pick3'])), (kind, self.ints(r.below(6), -3, 9)), (r.choice(['(', '[']), self.ints(r.below(6), -3, 9)),
+                            (r.choice(['(', '[']), self.ints(r.below(6), -3, 9))])
         if f in ('take', 'drop'):
             x = self.seqv() if r.chance(1, 2) else self.bytesv(r.below(7))
             n = len(x[1])
